@@ -12,8 +12,8 @@
     * `al r` / `tn r` may name an OCCUPIED register: `putH` then replaces the old handle, i.e. the old
       handle's claim disappears without its destructor running. This is HANDLED, not excluded: the
       invariant bounds the number of claims from above (`≤`), and losing a claim only lowers counts.
-      (Only the converse direction "every non-free slot has an owner", which C02 does not need, would
-      require a `FreshRegs` hypothesis.)
+      (Only the converse direction "every non-free slot has an owner", which exclusion does not need,
+      requires fresh registers: `MicroOwned.lean`, hypothesis `¬ ClobberStep`.)
 -/
 import EcModel.Micro
 import EcModel.Lemmas.SlotsStep
